@@ -63,6 +63,8 @@ type Ceremony struct {
 	// MachinesRestartedFirst: the restored machines were stopped and reopened before the reinit operation.
 	MachinesRestartedFirst bool
 	SeedSetTwice           bool
+	// ProposalMismatch: set by RunBatch when the last proposal differs from what was handed in
+	ProposalMismatch string
 	EarlyBatch             bool
 	// ReinitFile: the reinitialisation file as written by the dkg_reinitializer binary (tool-chain worlds).
 	ReinitFile string
